@@ -21,6 +21,8 @@
 (* Mode "STEP": a dumped tree followed by the `down` / `up` events of the real search (every child    *)
 (*   search): each returned value must be sound for its window - exact inside the window, a true bound    *)
 (*   outside it - with respect to LookVal / Quiesce of the node searched.                                *)
+(* Mode "STORE": the same stream; every cache write (`ttwrite`) of the real search must be true of the node it  *)
+(*   is stored for: Exact = the value at the stored depth, Lower <= value <= Upper (EntriesTrue of Search.tla).    *)
 (* Mode "PROBE": the transposition-table probes of cached searches: each `probe` event (entry found,   *)
 (*   remaining depth and window of the node) is followed by what the node did - `probed` with the window *)
 (*   it went on with, or the parent's `up` when it returned at once - and that must be the outcome of    *)
@@ -241,7 +243,39 @@ SUp ==
   /\ LET r == Rec[l]
          n == IF r.ply + 1 <= Len(stk) THEN stk[r.ply + 1] ELSE 0 IN
      IF n = 0 THEN /\ l' = l + 1 /\ UNCHANGED <<cur, aborted, widx, ref, refOf, judged, rejected, stk, hd>>   \* node not in the dump: not judged
-     ELSE LET f == StepFails(hd, n, r) IN
+     ELSE LET f == IF Mode = "STORE" THEN {} ELSE StepFails(hd, n, r) IN
+          IF f # {} THEN Reject(f)
+          ELSE /\ judged' = judged + 1 /\ l' = l + 1
+               /\ UNCHANGED <<cur, aborted, widx, ref, refOf, rejected, stk, hd>>
+\* a cache write of the real search (cache probes neutralised, so every value below it is the look-ahead game's):
+\* in mode STORE the entry must be true of the node it is stored for - Exact = its value at the stored depth,
+\* Lower <= value, Upper >= value (the invariant EntriesTrue of Search.tla, on the real entries).  The stored
+\* depth includes the check extension of the node; the root is stored by alpha_beta_start without extension.
+RootValAt(h, d) == MaxOf({Neg(LookVal(h, RootKids(h)[j][1], d - 1, 1)) : j \in 1..Len(RootKids(h))})
+StoreFails(h, n, r) ==
+  LET lv == IF r.site = "root" THEN RootValAt(h, r.depth)
+            ELSE LookVal(h, n, r.depth - (IF Node(h, n).chk THEN 1 ELSE 0), r.ply) IN
+  (IF r.bound = "E" /\ lv # r.score THEN {"exact-entry-is-not-the-value"} ELSE {})
+  \cup (IF r.bound = "L" /\ ~(lv >= r.score) THEN {"lower-bound-above-the-value"} ELSE {})
+  \cup (IF r.bound = "U" /\ ~(lv <= r.score) THEN {"upper-bound-below-the-value"} ELSE {})
+  \cup (IF r.bound \notin {"E", "L", "U"} THEN {"bound-kind"} ELSE {})
+\* The window of the writing node: a node returns right after its write, so the next event that is not a write
+\* is the `up` of that node in its parent (caller's window and kind of call).  Entries written under a degenerate
+\* window (alpha >= beta: after a mate in one has raised the root's alpha to the maximum, every later null window
+\* is empty) say nothing - the contract of the search says nothing there either (cf. StepFails) - and are exempt;
+\* the root's own write has the full window.
+RECURSIVE NextNonWrite(_)
+NextNonWrite(k) == IF k > N THEN 0 ELSE IF Rec[k].ev = "ttwrite" THEN NextNonWrite(k + 1) ELSE k
+WriterWindowKnown(r, k) == r.site = "root" \/ (k # 0 /\ Rec[k].ev = "up" /\ Rec[k].ply = r.ply)
+WriterWindowEmpty(r, k) == r.site # "root" /\ ChildWindow(Rec[k])[1] >= ChildWindow(Rec[k])[2]
+SWrite ==
+  /\ Rec[l].ev = "ttwrite"
+  /\ LET r == Rec[l]
+         n == IF r.ply + 1 <= Len(stk) THEN stk[r.ply + 1] ELSE 0
+         k == NextNonWrite(l + 1) IN
+     IF Mode # "STORE" \/ n = 0 \/ ~WriterWindowKnown(r, k) \/ WriterWindowEmpty(r, k)
+     THEN /\ l' = l + 1 /\ UNCHANGED <<cur, aborted, widx, ref, refOf, judged, rejected, stk, hd>>
+     ELSE LET f == StoreFails(hd, n, r) IN
           IF f # {} THEN Reject(f)
           ELSE /\ judged' = judged + 1 /\ l' = l + 1
                /\ UNCHANGED <<cur, aborted, widx, ref, refOf, rejected, stk, hd>>
@@ -281,9 +315,9 @@ Init ==
   /\ Stateless
 
 Next ==
-  /\ Mode \in {"C13", "STEP", "PROBE"} /\ ~rejected
+  /\ Mode \in {"C13", "STEP", "STORE", "PROBE"} /\ ~rejected
   /\ \/ (l <= N /\ Mode = "C13" /\ (TSearch \/ TWrite \/ TAbort \/ TEnd))
-     \/ (l <= N /\ Mode = "STEP" /\ (STree \/ SDown \/ SUp \/ SEnd))
+     \/ (l <= N /\ Mode \in {"STEP", "STORE"} /\ (STree \/ SDown \/ SUp \/ SWrite \/ SEnd))
      \/ (l <= N /\ Mode = "PROBE" /\ (PSearch \/ PProbe))
      \/ TDone
 
